@@ -91,6 +91,8 @@ def ctx():
 def to_z3(v, real=False):
     if isinstance(v, Z):
         return v.e
+    if isinstance(getattr(v, 'z', None), Z):      # typed wrappers (float / int / ndarray subclasses) carrying a Z
+        return v.z.e
     if isinstance(v, bool):
         return z3.BoolVal(v)
     if isinstance(v, int):
@@ -176,6 +178,8 @@ class Z:
 
     def __repr__(self):
         return f'Z({self.e})'
+
+    shape = ()
 
 
 def zand(*a):
